@@ -101,18 +101,18 @@ pub fn env_files(thorough: bool) -> Report {
         r.evaluations += 1; r.nontrivial += 1;
         let t = tempfile::tempdir().unwrap(); let layer = t.path().join("layer"); fs::create_dir_all(&layer).unwrap();
         let mut le = LayerEnv::new();
-        for (b, n, v) in [(MB::Append, "OPTS", "a"), (MB::Default, "OPTS", "d"), (MB::Prepend, "OPTS", "p"), (MB::Delimiter, "OPTS", ":"), (MB::Override, "OVR", "o"), (MB::Append, "OVR", "a"), (MB::Delimiter, "OVR", ":")] { le.insert(scope(sc), b, n, v); }
+        for (b, n, v) in [(MB::Append, "OPTS", "a"), (MB::Default, "OPTS", "d"), (MB::Prepend, "OPTS", "p"), (MB::Delimiter, "OPTS", ":"), (MB::Override, "OVR", "o"), (MB::Append, "OVR", "a"), (MB::Delimiter, "OVR", ":"), (MB::Override, "BOTH", "o"), (MB::Prepend, "BOTH", "p"), (MB::Delimiter, "BOTH", ":")] { le.insert(scope(sc), b, n, v); }
         le.write_to_layer_dir(&layer).unwrap();
         for rep in 0..25 {
             let back = match LayerEnv::read_from_layer_dir(&layer) { Ok(b) => b, Err(e) => { r.violation("read_back", "read_from_layer_dir failed on a written layout", format!("scope {sc}"), "Ok".into(), e.to_string()); break; } };
             let mut bad = None;
             for (start, want_opts, want_ovr) in [(None, "p:a", "o"), (Some("x"), "p:x:a", "o")] {
-                let mut env = Env::new(); if let Some(x) = start { env.insert("OPTS", x); env.insert("OVR", x); }
+                let mut env = Env::new(); if let Some(x) = start { env.insert("OPTS", x); env.insert("OVR", x); env.insert("BOTH", x); }
                 let got = back.apply(scope(sc), &env);
                 let g = |n: &str| got.get(n).map(|v| v.to_string_lossy().to_string());
-                if g("OPTS").as_deref() != Some(want_opts) || g("OVR").as_deref() != Some(want_ovr) { bad = Some((start, format!("OPTS={want_opts} OVR={want_ovr}"), format!("OPTS={:?} OVR={:?}", g("OPTS"), g("OVR")))); }
+                if g("OPTS").as_deref() != Some(want_opts) || g("OVR").as_deref() != Some(want_ovr) || g("BOTH").as_deref() != Some("p:o") { bad = Some((start, format!("OPTS={want_opts} OVR={want_ovr} BOTH=p:o"), format!("OPTS={:?} OVR={:?} BOTH={:?}", g("OPTS"), g("OVR"), g("BOTH")))); }
             }
-            if let Some((start, want, got)) = bad { r.violation("round_trip_order", "an environment read back applies a variable's behaviours in the lifecycle's order (append, default, override, prepend), on every read", format!("scope {:?}: OPTS.append=a OPTS.default=d OPTS.prepend=p OPTS.delim=: OVR.override=o OVR.append=a OVR.delim=: ; start {start:?}; read #{rep}", scope(sc)), want, got); break; }
+            if let Some((start, want, got)) = bad { r.violation("round_trip_order", "an environment read back applies a variable's behaviours in the lifecycle's order (append, default, override, prepend), on every read", format!("scope {:?}: OPTS.append=a OPTS.default=d OPTS.prepend=p OPTS.delim=: OVR.override=o OVR.append=a OVR.delim=: BOTH.override=o BOTH.prepend=p BOTH.delim=: ; start {start:?}; read #{rep}", scope(sc)), want, got); break; }
         }
     }
     // read side: suffix-less = override, unknown suffix ignored, sub-directories skipped
